@@ -16,6 +16,10 @@ BRANCH = {  # body -> (condition field, branch field A, branch field B)
     P % "control_flow::if_else::IfElse": ("condition", "if_true", "if_false"),
     P % "control_flow::set_if_else::SetIfElse": ("expression", "if_match", "else_instruction"),
 }
+DECIDES = {   # the run-time test that chooses the branch
+    P % "control_flow::if_else::IfElse": ["variable::Variable::into_bool"],
+    P % "control_flow::set_if_else::SetIfElse": ["variable::r#type::Type::matches"],
+}
 SHORT = {"instruction::bin_op::logic::and::exec": "&&", "instruction::bin_op::logic::or::exec": "||"}
 BIND = {    # value evaluated before the binding is inserted
     P % "set::Set": "instruction",
@@ -229,6 +233,22 @@ def run(ctx):
             res.bad(key, "%s: both branches can be evaluated in one execution (only the chosen branch may run)" % bid, b.where())
         else:
             res.ok(key, b.where(), "%s before {%s xor %s}" % (cond, fa, fb))
+        # the branch is chosen by the run-time test on the value just computed, and by nothing else: every way from
+        # the evaluation of the condition / scrutinee to either branch passes through that test
+        tests = DECIDES[bid]
+        gates = {c.bb for c in b.calls if c.callee in tests or c.path in tests}
+        key = "branch-decided-by-test:%s" % bid
+        if not gates:
+            res.bad(key, "%s no longer decides its branch with %s" % (bid, " / ".join(tests)), b.where())
+        else:
+            free = b.reachable_after(cc.bb, avoid=gates)
+            leaked = [f for f, c in ((fa, ca), (fb, cb)) if c.bb in free]
+            if leaked:
+                res.bad(key, "%s can reach branch `%s` without the run-time test (%s) on the value it just evaluated: the branch is "
+                             "(also) chosen by something decided earlier, e.g. a static pre-filter" % (bid, leaked[0], " / ".join(t.rsplit("::", 1)[-1] for t in tests)),
+                        b.where())
+            else:
+                res.ok(key, b.where(), "both branches lie behind %s" % " / ".join(t.rsplit("::", 1)[-1] for t in tests))
 
     for bid, f in BIND.items():
         b = lib.body(bid)
